@@ -416,12 +416,23 @@ def part_expr(ctx):
     ctx.extra['pairs'] = sorted(seen_pairs)
 
 
+def near_integer(r):
+    if r.random() < 0.25:
+        return 2 ** 53 + r.randint(1, 10 ** 6)
+    return r.randint(-5, 5) + r.choice([1e-10, -1e-10, 5e-10, -3e-10, 1e-12,
+                                        -1e-12, 1e-7, -1e-7])
+
+
 BUILTIN_ARGS = {
     'round': lambda r: r.choice([r.uniform(-50, 50), r.randint(-9, 9) + 0.25,
                                  r.randint(-9, 9) + 0.75, r.randint(-5, 5)]),
-    'trunc': lambda r: r.uniform(-50, 50),
-    'floor': lambda r: r.choice([r.uniform(-50, 50), float(r.randint(-5, 5))]),
-    'ceil': lambda r: r.choice([r.uniform(-50, 50), float(r.randint(-5, 5))]),
+    # (also a hair's breadth away from an integer, and integers too large for
+    # a float to hold exactly)
+    'trunc': lambda r: r.choice([r.uniform(-50, 50), near_integer(r)]),
+    'floor': lambda r: r.choice([r.uniform(-50, 50), float(r.randint(-5, 5)),
+                                 near_integer(r), near_integer(r)]),
+    'ceil': lambda r: r.choice([r.uniform(-50, 50), float(r.randint(-5, 5)),
+                                near_integer(r), near_integer(r)]),
     'sqrt': lambda r: r.choice([r.uniform(0, 1000), 0, 4, 2.25]),
     'sin': lambda r: r.uniform(-720, 720),
     'cos': lambda r: r.uniform(-720, 720),
@@ -450,7 +461,7 @@ def part_builtins(ctx):
     for _ in range(n):
         name = rng.choice(sorted(BUILTIN_ARGS))
         x = BUILTIN_ARGS[name](rng)
-        if isinstance(x, float):
+        if isinstance(x, float) and not 0 < abs(x - round(x)) < 1e-6:
             x = float(repr(round(x, rng.choice([0, 1, 3, 6]))))
         form = rng.choice(['lit', 'var', 'expr'])
         arg = {'lit': lit(x) if x >= 0 else '{ ' + lit(x) + ' }',
